@@ -4,11 +4,11 @@
 package simnet
 
 import (
-	"errors"
 	"fmt"
 	"io"
 	"net"
 	"sync"
+	"syscall"
 	"time"
 
 	"verifsim/kernel"
@@ -204,7 +204,8 @@ type Conn struct {
 	// HalfCloseAtWrite: after that write the peer sees EOF but this end keeps reading.
 }
 
-var ErrReset = errors.New("simnet: connection reset by peer")
+// ErrReset has the shape a real reset has: a *net.OpError (a net.Error that is neither a timeout nor temporary).
+var ErrReset error = &net.OpError{Op: "read", Net: "sim", Err: syscall.ECONNRESET}
 
 func (c *Conn) readable() bool {
 	c.sh.mu.Lock()
